@@ -147,13 +147,19 @@ def run(chk):
         ham_f = lambda x, y: x * sx + y * sz
         gam_f = lambda x, y: 0.1 + 0.05 * x * x
         lop_f = (lambda x, y: np.cos(y) * sm + 0.5 * np.sin(y) * sz) if it % 3 != 2 else (lambda x, y: sm)
-        base = oqupy.ParameterizedSystem(ham_f, gammas=[gam_f], lindblad_operators=[lop_f])
+        # every run (it == 1): a purely coherent system (no Lindblad terms at all) whose Hamiltonian is complex (a sigma_y control)
+        coherent = it == 1
+        if coherent:
+            sy_ = oqupy.operators.sigma("y")
+            ham_f = lambda x, y: x * sx + y * sy_ + 0.3 * sz
+        mk_ps = (lambda **kw: oqupy.ParameterizedSystem(ham_f, **kw)) if coherent else \
+            (lambda **kw: oqupy.ParameterizedSystem(ham_f, gammas=[gam_f], lindblad_operators=[lop_f], **kw))
+        base = mk_ps()
         # both routes through the library's own get_propagator_derivatives: numerically differentiated / user supplied
         supplied = (it // 2) % 2 == 1
         if supplied:
-            helper = oqupy.ParameterizedSystem(ham_f, gammas=[gam_f], lindblad_operators=[lop_f])
-            psys = oqupy.ParameterizedSystem(ham_f, gammas=[gam_f], lindblad_operators=[lop_f],
-                                             propagator_derivatives=lambda dt, p: helper.halfstep_propagator_derivative(dt)(p))
+            helper = mk_ps()
+            psys = mk_ps(propagator_derivatives=lambda dt, p: helper.halfstep_propagator_derivative(dt)(p))
         else:
             psys = base
         # parameter tables: generic, and degenerate ones (a control held constant within a step / throughout)
@@ -172,7 +178,7 @@ def run(chk):
             params[:, 1] = -0.15
         rho0 = oqupy.operators.spin_dm("x+")
         target = oqupy.operators.spin_dm("z-").T
-        info = {"envs": len(ops), "parameter_table": shape, "derivatives": "user-supplied" if supplied else "numerical", "parameters": params.tolist()}
+        info = {"envs": len(ops), "parameter_table": shape, "derivatives": "user-supplied" if supplied else "numerical", "purely_coherent": coherent, "parameters": params.tolist()}
         try:
             res = quiet(oqupy.state_gradient, system=psys, initial_state=rho0, target_derivative=target, process_tensors=pts,
                         parameters=params.copy(), progress_type="silent")
@@ -185,6 +191,8 @@ def run(chk):
             H, g, A = ham_f(x, y), gam_f(x, y), lop_f(x, y)
             I2 = np.eye(2)
             AdA = A.conj().T @ A
+            if coherent:
+                return -1j * (np.kron(H, I2) - np.kron(I2, H.T))
             return (-1j * (np.kron(H, I2) - np.kron(I2, H.T))
                     + g * (np.kron(A, A.conj()) - 0.5 * np.kron(AdA, I2) - 0.5 * np.kron(I2, AdA.T)))
 
